@@ -391,7 +391,8 @@ def sendAct (d : Bytes) : NetAct := .send d false
 def v2Refused (cfg : Cfg) : Bool :=
   (Gen.v2RefusedWhenDisallowed == 1 && !cfg.allowZmtp2) || (Gen.v2RefusedWhenSecurity == 1 && cfg.securityEnabled)
 
-def v2Compatible (own : SockName) (peerCode : Nat) : Bool := Gen.v2Compat.contains (own, peerCode)
+/-- `socket_types_compatible(own, peer)`: one table for ZMTP/2.0 and ZMTP/3.x -/
+def typesCompatible (own peer : SockName) : Bool := Gen.typeCompat.contains (own, peer)
 
 def nameFromCode (c : Nat) : Option SockName := (Gen.socketTypeNameFromCode.find? (·.1 == c)).map (·.2)
 def codeOfName (n : SockName) : Option Nat := (Gen.socketTypeCode.find? (·.1 == n)).map (·.2)
@@ -431,7 +432,7 @@ def step (spec : AbsSpec) (cfg : Cfg) (now : Nat) (s : Eng) : Option (Eng × Out
             match nameFromCode code with
             | none => some (fail s .proto)
             | some peerName =>
-              if !v2Compatible cfg.sockType code then some (fail s .proto)
+              if !typesCompatible cfg.sockType peerName then some (fail s .proto)
               else match codeOfName cfg.sockType with
                 | none => some (fail { s with v2PeerType := some peerName, version := some .v2 } .proto)
                 | some own =>
@@ -482,6 +483,11 @@ def step (spec : AbsSpec) (cfg : Cfg) (now : Nat) (s : Eng) : Option (Eng × Out
       if !f.command || f.more then some (fail s1 .proto)
       else match parseCmd f.payload with
         | some (.ready props) =>
+          if Gen.v3ValidatesSocketType == 1 &&
+              (match lookupLast keySocketType props with
+               | some ty => !typesCompatible cfg.sockType (SockName.ofBytes ty)
+               | none => false) then some (fail s1 .proto)
+          else
           some ({ s1 with phase := .data, sealed := s.pendingSealed, pendingSealed := false, lastActivity := now },
                 { net := (if cfg.isServer then [sendAct (readyBytes cfg)] else []) ++ corkOn cfg,
                   app := [.handshakeComplete (lookupLast keyIdentity props) (lookupLast keySocketType props)] })
